@@ -251,7 +251,9 @@ class Cases:
             st.setdefault("first_by", {}).setdefault(aspect, dict(case=_plain(case), got=repr(got), want=want))
             if got is not None and got.kind == "ub" and got.site is not None and got.site[0] != f.pkey:
                 # undefined behaviour inside another repository function: report it where it happens
-                key2 = (got.site[0], got.site[1], "no undefined behaviour on valid input")
+                # the originating clause is kept in the text, so that a property's view (clause_view) keeps exactly the
+                # undefined behaviour reached from ITS clauses
+                key2 = (got.site[0], got.site[1], "no undefined behaviour [reached from the clause: %s]" % clause)
                 st2 = self.stats.get(key2)
                 if st2 is None:
                     st2 = self.stats[key2] = dict(n=0, bad=0, first=None, qn=got.site[2], ub=0, ubfirst=None)
